@@ -490,4 +490,64 @@ theorem eqTest_symm_aux (ex : Bool) (d : Int × Nat) : ∀ (n : Nat) (a e : PyVa
       simp only [PyVal.tuple.sizeOf_spec] at hsz
       rw [hl, seqCase xs ys (by omega) ha he]
 
+/-! ### `equality_test` never raises on scalars, lists and tuples -/
+
+theorem eqSeq_ok (ex : Bool) (d : Option (Int × Nat)) (xs ys : List PyVal)
+    (h : ∀ x ∈ xs, ∀ y ∈ ys, ∃ b, eqTest ex d x y = .ok b) : ∃ b, eqSeq ex d xs ys = .ok b := by
+  induction xs generalizing ys with
+  | nil => cases ys <;> exact ⟨true, by simp [eqSeq]⟩
+  | cons x xs ih =>
+    cases ys with
+    | nil => exact ⟨true, by simp [eqSeq]⟩
+    | cons y ys =>
+      obtain ⟨b, hb⟩ := h x (List.mem_cons_self) y (List.mem_cons_self)
+      simp only [eqSeq, hb]
+      cases b
+      · exact ⟨false, rfl⟩
+      · exact ih ys (fun a ha b hb => h a (List.mem_cons_of_mem _ ha) b (List.mem_cons_of_mem _ hb))
+
+theorem eqTest_ok_aux (ex : Bool) (d : Int × Nat) : ∀ (n : Nat) (a e : PyVal), sizeOf a + sizeOf e ≤ n →
+    seqOnly a = true → seqOnly e = true → ∃ b, eqTest ex (some d) a e = .ok b := by
+  intro n
+  induction n with
+  | zero =>
+    intro a e h
+    cases a <;> simp at h
+  | succ n ih =>
+    intro a e hsz ha he
+    have seqCase : ∀ xs ys : List PyVal, sizeOf xs + sizeOf ys ≤ n → seqOnlyList xs = true →
+        seqOnlyList ys = true → ∃ b, eqSeq ex (some d) xs ys = .ok b := by
+      intro xs ys hs hxs hys
+      refine eqSeq_ok ex (some d) xs ys (fun x hx y hy => ?_)
+      have h1 := List.sizeOf_lt_of_mem hx
+      have h2 := List.sizeOf_lt_of_mem hy
+      exact ih x y (by omega) (seqOnlyList_mem xs hxs x hx) (seqOnlyList_mem ys hys y hy)
+    cases a <;> cases e <;> first
+      | (simp [seqOnly] at ha; done)
+      | (simp [seqOnly] at he; done)
+      | (rw [eqTest.eq_def]; simp [isFloat, isIntOrFloat, num?]; done)
+      | skip
+    case str.str sa se =>
+      simp only [seqOnly] at ha he
+      rw [eqTest_str]
+      cases ex <;> simp [ha, he]
+    case list.list xs ys =>
+      rw [eqTest_list]
+      simp only [seqOnly] at ha he
+      simp only [PyVal.list.sizeOf_spec] at hsz
+      split
+      · exact ⟨true, rfl⟩
+      · split
+        · exact ⟨false, rfl⟩
+        · exact seqCase xs ys (by omega) ha he
+    case tuple.tuple xs ys =>
+      rw [eqTest_tuple]
+      simp only [seqOnly] at ha he
+      simp only [PyVal.tuple.sizeOf_spec] at hsz
+      split
+      · exact ⟨true, rfl⟩
+      · split
+        · exact ⟨false, rfl⟩
+        · exact seqCase xs ys (by omega) ha he
+
 end Pedal.Assertions
